@@ -1057,7 +1057,8 @@ class Fault(object):
         if not version:
             version = self.config.version
 
-        if rpcid:
+        if rpcid is not None and rpcid != "":
+            # 0 is a valid request ID
             self.rpcid = rpcid
 
         return dumps(
@@ -1079,7 +1080,8 @@ class Fault(object):
         if not version:
             version = self.config.version
 
-        if rpcid:
+        if rpcid is not None and rpcid != "":
+            # 0 is a valid request ID
             self.rpcid = rpcid
 
         return dump(
